@@ -9,8 +9,10 @@ import (
 	"errors"
 	"fmt"
 	"math/rand/v2"
+	"os"
 	"runtime"
 	"sort"
+	"testing"
 	"time"
 
 	ic "github.com/libp2p/go-libp2p/core/crypto"
@@ -221,7 +223,7 @@ type traceSpec struct {
 	Delta     string   `json:"start_delta"`
 	Start     string   `json:"start"`
 	Rollovers int      `json:"rollovers"`
-	Instants  []string `json:"instants,omitempty"` // ms offsets from start; "R" marks a restart before the instant
+	Instants  []string `json:"instants,omitempty"` // ns offsets from start; "R": the manager is restarted at this instant (down since the previous one)
 }
 
 type step struct {
@@ -307,7 +309,7 @@ type complaint struct {
 type tracer struct {
 	bk       bucketing
 	key      ic.PrivKey
-	clk      *stepClock
+	clk      driver // nil: a stepClock starting at t0
 	cache    map[*tls.Config]*certInfo
 	samples  []*sample
 	res      traceResult
@@ -434,7 +436,9 @@ func (tr *tracer) checkRetrospective() {
 }
 
 func (tr *tracer) run(t0 time.Time, steps []step) error {
-	tr.clk = newStepClock(t0)
+	if tr.clk == nil {
+		tr.clk = newStepClock(t0)
+	}
 	tr.cache = map[*tls.Config]*certInfo{}
 	m, err := tr.clk.newManager(tr.key)
 	if err != nil {
@@ -574,7 +578,10 @@ func buildKeys(r *run.R, n int) ([]hostKeySpec, error) {
 
 func managerCases(r *run.R) {
 	nKeys := r.Pick(200, 2000)
-	tracesPerKey := r.Pick(6, 12)
+	tracesPerKey := r.Pick(12, 16)
+	if os.Getenv("VERIF_RACE") == "1" { // race pass: getters spin against the rollover goroutine
+		nKeys, tracesPerKey = 48, 4
+	}
 	keys, err := buildKeys(r, nKeys)
 	if err != nil {
 		r.Inconclusive("keys", "host key derivation failed: "+err.Error())
@@ -610,7 +617,29 @@ func managerCases(r *run.R) {
 		rollovers := rng.IntN(7)
 		t0, steps := buildTrace(rng, k.bk, idx, bnd, dl, rollovers, !r.Quick() || ti == 0)
 		tr := &tracer{bk: k.bk, key: k.key}
-		err := tr.run(t0, steps)
+		var err error
+		// one trace in eight runs on the production clock (clock.New()) in virtual time instead of the mock
+		virtual := ti%8 == 5 && t0.After(bubbleEpoch)
+		if virtual {
+			res := run.Bubble(r.T, func(*testing.T) {
+				bd := bubbleDriver{}
+				bd.advance(t0)
+				tr.clk = bd
+				err = tr.run(t0, steps)
+			})
+			if !res.OK() {
+				if res.Panic != nil {
+					r.Violation("manager:panic", caseID, fmt.Sprint("panic while driving the cert manager in virtual time: ", res.Panic), map[string]any{"stack": res.Dump})
+				} else {
+					r.Inconclusive(caseID, "virtual-time bubble deadlocked: "+res.Dump)
+				}
+				return
+			}
+			r.Count("mgr_traces_virtual_time_real_clock", 1)
+		} else {
+			err = tr.run(t0, steps)
+			r.Count("mgr_traces_mock_clock", 1)
+		}
 		spec := traceSpec{KeyType: ktNames[k.kt], OffsetMin: k.off, Bucket: idx, Boundary: boundaryNames[bnd], Delta: deltas[dl].String(),
 			Start: ts(t0), Rollovers: rollovers}
 		if err != nil {
@@ -642,7 +671,7 @@ func managerCases(r *run.R) {
 				if st.restart {
 					mark = "R"
 				}
-				spec.Instants = append(spec.Instants, fmt.Sprintf("%s+%dms", mark, st.t.Sub(t0).Milliseconds()))
+				spec.Instants = append(spec.Instants, fmt.Sprintf("%s+%dns", mark, st.t.Sub(t0).Nanoseconds()))
 			}
 			seen := map[string]bool{}
 			for _, p := range tr.problems {
